@@ -98,6 +98,10 @@ STATEMENT_STATUS: Dict[str, str] = {
                       "swaps never fire, size = its height / width >= 0",
     "C05_glyph_bbox_axis": "proved: closed form for [a 0 0 d e f], any signs; size = |d*Tfs|",
     "C05_glyph_bbox_quarter": "proved: closed form for [0 b c 0 e f]; size = |b*adv|",
+    "C05_glyph_upright": "proved: LTChar.upright (regenerated) = the text model's uprightOf(Trm, Th) for every matrix; the "
+                         "field is part of the glyph record C05_program equates",
+    "C05_upright_axis": "proved: axis-parallel matrix, Th > 0: upright <-> a*d > 0",
+    "C05_upright_quarter": "proved: a quarter turn is never upright",
     "C05_unlisted_frame": "proved (unconditional): any keyword outside the 33 listed operators (paths, painting, clipping, "
                           "marked content, BX/EX, sh, general graphics state, BI/ID/EI, unknown) shows no glyph and changes "
                           "nothing of the interpreter/device state but takes its operands off the operand stack",
@@ -787,7 +791,7 @@ def run_impl(case: dict):
                     else:
                         cc = [F(col)]
                     out.append({"m": [F(x) for x in o.matrix], "adv": F(o.adv), "bbox": [F(x) for x in o.bbox],
-                                "size": F(o.size), "font": o.fontname, "col": cc})
+                                "size": F(o.size), "font": o.fontname, "col": cc, "upright": bool(o.upright)})
                 elif isinstance(o, LTFigure):
                     walk(o)
         walk(lt)
@@ -896,7 +900,9 @@ def observe(trm, font: dict, tfs, th, rise, code: int, col) -> dict:
     y0, y1 = min(p[1] for p in pts), max(p[1] for p in pts)
     return {"m": list(trm), "adv": adv, "bbox": [x0, y0, x1, y1],
             "size": (x1 - x0) if font.get("kind") == "cidv" else (y1 - y0), "font": font["name"],
-            "col": None if col is None else list(col)}
+            "col": None if col is None else list(col),
+            # not rotated, not mirrored (th = Th/100; its sign decides like Th's)
+            "upright": trm[0] * trm[3] * th > 0 and trm[1] * trm[2] <= 0}
 
 
 class SpecMachine:
@@ -1116,6 +1122,8 @@ def glyph_diff(impl: dict, exp: dict) -> Optional[str]:
             return "bbox[%d]" % i
     if not close(impl["size"], exp["size"]):
         return "size"
+    if impl.get("upright") != exp.get("upright"):
+        return "upright"
     return None
 
 
@@ -1133,7 +1141,7 @@ def show_glyph(g: Optional[dict]) -> Any:
     if g is None:
         return None
     return {"m": [fs(x) for x in g["m"]], "adv": fs(g["adv"]), "bbox": [fs(x) for x in g["bbox"]], "size": fs(g["size"]),
-            "font": g["font"], "col": None if g["col"] is None else [fs(x) for x in g["col"]]}
+            "font": g["font"], "col": None if g["col"] is None else [fs(x) for x in g["col"]], "upright": g.get("upright")}
 
 
 # ------------------------------------------------------------------------------------------ driver protocol
@@ -1246,7 +1254,8 @@ def parse_reply(line: str):
             nums = [F(x) for x in w[:12]]
             col = None if w[13] == "-" else [F(x) for x in w[13].split(",")]
             gl.append({"m": nums[:6], "adv": nums[6], "bbox": nums[7:11], "size": nums[11],
-                       "font": bytes.fromhex(w[12]).decode("latin-1") if w[12] != "-" else "", "col": col})
+                       "font": bytes.fromhex(w[12]).decode("latin-1") if w[12] != "-" else "", "col": col,
+                       "upright": w[14] == "u1"})
     return ("ok", gl)
 
 
@@ -1427,6 +1436,7 @@ def flush(ctx: C.Ctx, batch: list) -> None:
                 else:
                     kind = "general"
                 ctx.branch("glyph-matrix:" + kind)
+                ctx.branch("upright:%s" % gl.get("upright"))
         # (0) the two spec implementations agree (Lean spec is the reference; the twin is the fallback oracle)
         twin_differs = False
         if lsp is not None:
@@ -1524,6 +1534,7 @@ def flush(ctx: C.Ctx, batch: list) -> None:
                 "position": "glyph matrix / box differs from the position the PDF text model assigns",
                 "adv": "glyph advance differs from the PDF text model",
                 "font": "glyph font differs from the PDF text model",
+                "upright": "glyph reported upright although rotated / mirrored (or the reverse)",
                 "colour": "glyph fill colour differs from the PDF text model",
                 "page-dependence": "the glyphs reported for a page depend on the pages interpreted before it"}[classify_field(field)]
         tags = tags_for(small, det[1] if isinstance(det[1], int) else -1, field, det[2], det[3])
